@@ -63,7 +63,9 @@ func (m *MatchRegexp) Provision(_ caddy.Context) (err error) {
 	if m.Count == 0 {
 		m.Count = minCount
 	}
-	m.compiled, err = regexp.Compile(repl.ReplaceAll(m.Pattern, ""))
+	// only known placeholders are replaced: to the replacer, a counted
+	// repetition like \d{3} looks like a placeholder it doesn't know
+	m.compiled, err = regexp.Compile(repl.ReplaceKnown(m.Pattern, ""))
 	if err != nil {
 		return err
 	}
